@@ -25,3 +25,21 @@ package embed
 //@   ensures [C19] #id-is-a-path-section result == "" || exists(i, 0 <= i && i < len(pathParts), result == strings.TrimSpace(pathParts[i]))
 //@   loop 0 invariant -1 <= i && i < len(pathParts)
 //@   loop 0 decreases i + 1
+
+// C19: a frame becomes an embed only when the host of its (resolved) source is on the allow-list: the
+// extractors return non-nil only after HasRootDomain accepted the source (HasRootDomain itself is proved
+// equal to the host/dot-suffix rule in package domutil), with the service name as type and a non-empty id.
+//@ func (*VimeoExtractor).Extract(node)
+//@   requires ve != nil
+//@   ensures [C19] #only-allow-listed-host implies(result != nil, domutil.HasRootDomain(src, "player.vimeo.com") && typeis(result, *webdoc.Embed) &&
+//@              as(result, *webdoc.Embed).Type == "vimeo" && as(result, *webdoc.Embed).ID != "" && as(result, *webdoc.Embed).Element == node)
+
+//@ func (*YouTubeExtractor).Extract(node)
+//@   requires ye != nil
+//@   ensures [C19] #only-allow-listed-host implies(result != nil, (domutil.HasRootDomain(src, "youtube.com") || domutil.HasRootDomain(src, "youtube-nocookie.com")) && typeis(result, *webdoc.Embed) &&
+//@              as(result, *webdoc.Embed).Type == "youtube" && as(result, *webdoc.Embed).ID != "" && as(result, *webdoc.Embed).Element == node)
+
+//@ func (*TwitterExtractor).extractRendered(node)
+//@   requires te != nil && node != nil
+//@   ensures [C19] #only-allow-listed-host implies(result != nil, dom.TagName(node) == "iframe" && domutil.HasRootDomain(dom.GetAttribute(node, "src"), "twitter.com") &&
+//@              result.Type == "twitter" && result.ID == dom.GetAttribute(node, "data-tweet-id") && result.ID != "" && result.Element == node)
